@@ -271,7 +271,7 @@ func init() {
 	runners["stsupgrade"] = func(c *Ctx, in map[string]string) {
 		hin := hexIn(in)
 		adv := in["advert"]
-		cfg := girc.Config{Server: "irc.example.org", Port: 6667, Nick: "me", User: "me", DisableSTS: in["nosts"] == "1", DisableSTSFallback: in["nofallback"] == "1",
+		cfg := girc.Config{Server: "irc.example.org", Port: cfgPort(in), Nick: "me", User: "me", DisableSTS: in["nosts"] == "1", DisableSTSFallback: in["nofallback"] == "1",
 			SSL: in["ssl"] == "1", TLSConfig: &tls.Config{InsecureSkipVerify: true}}
 		if in["sasl"] == "1" {
 			cfg.SASL = &girc.SASLPlain{User: "u", Pass: "p"}
@@ -331,14 +331,14 @@ func init() {
 		ok := true
 		switch {
 		case !wantReq:
-			ok = !requested && len(dials1) == 1 && dials1[0] == "irc.example.org:6667"
+			ok = !requested && len(dials1) == 1 && isPlainAddr(in, dials1[0])
 		case strings.Contains(model, "upgrade"):
 			port := model[strings.Index(model, "port=")+5:]
 			ok = requested && len(first.result.afterAck) == 0 && len(dials1) == 2 && dials1[1] == "irc.example.org:"+port && isHello(second.result.firstBytes) &&
 				lastOf(d.dials) == "irc.example.org:"+port && isHello(third.result.firstBytes)
 		case strings.Contains(model, "abort"):
 			ok = requested && strings.HasPrefix(r1, "errevent:closing connection: strict transport policy") && len(dials1) == 1 &&
-				lastOf(d.dials) == "irc.example.org:6667" && !isHello(second.result.firstBytes) && strings.HasPrefix(sts1, "-1 ")
+				isPlainAddr(in, lastOf(d.dials)) && !isHello(second.result.firstBytes) && strings.HasPrefix(sts1, "-1 ")
 		}
 		if !ok {
 			c.R.Violation("sts.upgrade", hin, impl, model, "STS behaviour on a plaintext connection differs from the policy decision")
@@ -352,7 +352,7 @@ func init() {
 		fmt.Sscan(in["port"], &port)
 		fmt.Sscan(in["duration"], &dur)
 		fmt.Sscan(in["receivedago"], &ago)
-		cfg := girc.Config{Server: "irc.example.org", Port: 6667, Nick: "me", User: "me", DisableSTSFallback: in["nofallback"] == "1", TLSConfig: &tls.Config{InsecureSkipVerify: true}}
+		cfg := girc.Config{Server: "irc.example.org", Port: cfgPort(in), Nick: "me", User: "me", DisableSTSFallback: in["nofallback"] == "1", TLSConfig: &tls.Config{InsecureSkipVerify: true}}
 		cl := girc.New(cfg)
 		girc.VerifSetSTS(cl, port, dur, time.Duration(ago)*time.Second, -1)
 		if in["notrack"] == "1" {
@@ -372,16 +372,21 @@ func init() {
 		if expired != (ago > dur) {
 			c.R.Mismatch("sts.expired_arith", hin, fmt.Sprint(ago > dur), fmt.Sprint(expired))
 		}
+		// … and as the function body regenerated from state.go computes it (Gen/Funcs.lean, Props/TieSts)
+		if g := c.L.Call("gen.strictTransport.expired", fmt.Sprint(int64(ago)*1e9+1000), fmt.Sprint(dur), "0"); g != bl(expired) {
+			c.R.Mismatch("translated.strictTransport.expired", hin, bl(expired), g)
+		}
+		c.R.Dist["translated.strictTransport.expired"]++
 		m := strings.Fields(c.L.Call("sts.dialfail", bl(cfg.DisableSTSFallback), bl(expired), fmt.Sprint(port), fmt.Sprint(dur)))
 		if kind == "sniff" {
 			// tls.Client handshakes lazily: newConn itself succeeds, the failure surfaces as an I/O error of the
 			// session and the stored policy is left alone (no fallback)
 			m = []string{fmt.Sprint(port), fmt.Sprint(dur), "io"}
 		}
-		plan := strings.Fields(c.L.Call("sts.plan", "6667", "0", fmt.Sprint(port)))
+		plan := strings.Fields(c.L.Call("sts.plan", fmt.Sprint(cfgPort(in)), "0", fmt.Sprint(port)))
 		wantAddr := "irc.example.org:" + plan[0]
 		wantErr := map[string]string{"sts": "stsfail", "plain": "err:dial refused (scripted)"}[m[2]]
-		plan2 := strings.Fields(c.L.Call("sts.plan", "6667", "0", m[0]))
+		plan2 := strings.Fields(c.L.Call("sts.plan", fmt.Sprint(cfgPort(in)), "0", m[0]))
 		impl := fmt.Sprintf("dial1=%s r1=%s sts=%s dial2=%s", d.dials[0], r1, sts1, lastOf(d.dials))
 		model := fmt.Sprintf("dial1=%s r1=%s sts=%s %s dial2=%s", wantAddr, wantErr, m[0], m[1], "irc.example.org:"+plan2[0])
 		ok := d.dials[0] == wantAddr && strings.HasPrefix(sts1, m[0]+" "+m[1]+" ") && lastOf(d.dials) == "irc.example.org:"+plan2[0]
@@ -403,7 +408,7 @@ func init() {
 	runners["ststls"] = func(c *Ctx, in map[string]string) {
 		hin := hexIn(in)
 		adv := in["advert"]
-		cfg := girc.Config{Server: "irc.example.org", Port: 6667, Nick: "me", User: "me", TLSConfig: &tls.Config{InsecureSkipVerify: true}}
+		cfg := girc.Config{Server: "irc.example.org", Port: cfgPort(in), Nick: "me", User: "me", TLSConfig: &tls.Config{InsecureSkipVerify: true}}
 		cl := girc.New(cfg)
 		girc.VerifSetSTS(cl, 6697, 100, time.Second, -1)
 		capLine := "multi-prefix sts"
@@ -456,7 +461,7 @@ func init() {
 	// fallback to plaintext.
 	runners["stsrebase"] = func(c *Ctx, in map[string]string) {
 		hin := hexIn(in)
-		cfg := girc.Config{Server: "irc.example.org", Port: 6667, Nick: "me", User: "me", TLSConfig: &tls.Config{InsecureSkipVerify: true}}
+		cfg := girc.Config{Server: "irc.example.org", Port: cfgPort(in), Nick: "me", User: "me", TLSConfig: &tls.Config{InsecureSkipVerify: true}}
 		cl := girc.New(cfg)
 		girc.VerifSetSTS(cl, 6697, 1, 0, -1) // stored policy: port 6697, one second, just received
 		p := newPeer("tls", "WUSER", "S:srv CAP * LS :multi-prefix", "WCAP REQ", "S:srv CAP * ACK :multi-prefix", "WCAP END", "S:srv 001 me :Welcome")
@@ -498,7 +503,7 @@ func init() {
 	// returns nil and no further dial is made.
 	runners["stsfailedthenclose"] = func(c *Ctx, in map[string]string) {
 		hin := hexIn(in)
-		cfg := girc.Config{Server: "irc.example.org", Port: 6667, Nick: "me", User: "me", TLSConfig: &tls.Config{InsecureSkipVerify: true}}
+		cfg := girc.Config{Server: "irc.example.org", Port: cfgPort(in), Nick: "me", User: "me", TLSConfig: &tls.Config{InsecureSkipVerify: true}}
 		cl := girc.New(cfg)
 		first := newPeer("plain", "WUSER", "S:srv CAP * LS :multi-prefix sts=port=6697", "WCAP REQ", "S:srv CAP * ACK :multi-prefix sts")
 		third := newPeer("plain", "WUSER", "S:srv CAP * LS :multi-prefix", "WCAP REQ", "S:srv CAP * ACK :multi-prefix", "WCAP END", "S:srv 001 me :Welcome", "SPING :x", "WPONG")
@@ -566,6 +571,19 @@ func runC10(c *Ctx) {
 		r.Count(fmt.Sprint(in), true, "upgrade-multiline")
 		r.Traces++
 	}
+	// Config.Port left unset (the default port is filled in by the library): the policy's port still decides where the upgrade goes
+	for _, adv := range []string{"port=6697", "port=7000,duration=100", "port=15", ""} {
+		in := map[string]string{"advert": adv, "cfgport": "0"}
+		c.run("stsupgrade", in)
+		r.Count(fmt.Sprint(in), true, "upgrade-default-port")
+		r.Traces++
+	}
+	for _, kind := range []string{"fail", "sniff"} {
+		in := map[string]string{"port": "6697", "duration": "1000", "receivedago": "5", "failkind": kind, "nofallback": "0", "cfgport": "0"}
+		c.run("stsdialfail", in)
+		r.Count(fmt.Sprint(in), true, "dialfail-default-port")
+		r.Traces++
+	}
 	r.Exhaustive = true
 	for _, port := range []string{"6697", "-1"} {
 		for _, age := range [][2]string{{"1000", "5"}, {"10", "50"}, {"-1", "0"}, {"9223372036854775807", "5"}, {"10000000000", "100"}, {"31536000", "86400"}, {"50", "50"}, {"50", "52"}} {
@@ -595,4 +613,22 @@ func runC10(c *Ctx) {
 	c.run("stsrebase", map[string]string{"duration": "1", "session": "2.3s"})
 	r.Traces++
 	r.Sample(map[string]string{"scenario": "plaintext, server ACKs sts=port=6697", "expected": "no line after ACK; redial irc.example.org:6697; first bytes 16 03"})
+}
+
+// isPlainAddr: addr is "the configured address".  With Config.Port unset the library dials <server>:0 (Client.server() formats the
+// address before newConn's private copy of the Config gets the documented default 6667: observation O20); the property does not
+// say which of the two is "the configured address", so both are accepted there — the POLICY port is what the property fixes.
+func isPlainAddr(in map[string]string, addr string) bool {
+	if in["cfgport"] == "0" {
+		return addr == "irc.example.org:0" || addr == "irc.example.org:6667"
+	}
+	return addr == "irc.example.org:6667"
+}
+
+// cfgPort: the configured port; "0" leaves Config.Port unset
+func cfgPort(in map[string]string) int {
+	if in["cfgport"] == "0" {
+		return 0
+	}
+	return 6667
 }
